@@ -94,6 +94,14 @@ theorem tramp_run_complete (w : Tramp.When) (ps : List Tramp.Producer) : (Tramp.
     split <;> simp [Tramp.deliver]
   rw [hq]; exact Nat.le_refl _
 
+/-- **tramp_stale_check_breaks.** The theorem above depends on the trampoline testing cancellation when it *invokes* an item: with
+the test moved to the moment the batch is gathered, `merge(of(a, b), generate(...))` disposed during the first notification still
+evaluates `generate`'s condition afterwards (the witness of seeded change C03r2_1). -/
+theorem tramp_stale_check_breaks :
+    Tramp.runStale (.during 0) [Tramp.ofP 2, Tramp.genP 1] = [.next 0 0, .cb 1 1] ∧
+    Tramp.runStale (.during 0) [Tramp.ofP 2, Tramp.genP 1] ≠ Tramp.cut 1 (Tramp.runStale .never [Tramp.ofP 2, Tramp.genP 1]) := by
+  decide
+
 /-! Non-vacuity -/
 example : Tramp.run .never [Tramp.ofP 2, Tramp.genP 1] =
     [.next 0 0, .next 0 1, .cb 1 1, .next 1 0, .cb 1 2, .cb 1 1, .completed] := by decide
